@@ -8,7 +8,7 @@ import (
 )
 
 func init() {
-	register("C37", []string{"./src/core/..."}, checkC37)
+	register("C37", []string{"./src/core/...", "./src/parse/asp/..."}, checkC37)
 }
 
 // mustQuote: characters POSIX sh requires to be quoted to stand for themselves (XCU 2.2).
@@ -199,6 +199,92 @@ func checkC37(p *Prog, r *Report) {
 		}
 	}
 	// (3)
+	// the `label|entry_point` annotation is split off labels only: a plain file name may contain `|`
+	if sep := p.Fn("core", "splitEntryPoint"); sep == nil {
+		r.unresolved("E5.entry-point-split-only-for-labels", "core.splitEntryPoint")
+	} else {
+		n, bad := 0, 0
+		var site token.Pos
+		for _, ci := range callsInFn(rs, sep) {
+			n++
+			lab := false
+			for _, f := range factsAt(ci) {
+				if c, ok := f.V.(*ssa.Call); ok && f.Val && strings.HasSuffix(calleeName(&c.Call), "LooksLikeABuildLabel") {
+					lab = true
+				}
+			}
+			if !lab {
+				bad++
+				site = ci.Pos()
+			}
+		}
+		if n == 0 {
+			r.okTrivial("E5.entry-point-split-only-for-labels", "replaceSequence does not split entry points itself", p.pos(rs.Pos()), fnName(rs), "no call")
+		} else {
+			r.check(bad == 0, "E5.entry-point-split-only-for-labels", "splitEntryPoint is applied only to build labels", p.pos(site), fnName(rs), itoa(n)+" call(s), each under LooksLikeABuildLabel(in)", "replaceSequence cuts its argument at the first `|` before knowing that it is a build label: $(location pipe|line.txt) on a source file of that name expands to pkg/pipe, a path that does not exist, and no error is raised")
+		}
+	}
+	// a label that is both a dependency and data must stay a build dependency: AddDatum marks the dependency data-only
+	// whatever it was before, and only a later AddDependency clears that again
+	if pt, ad := p.Fn("parse/asp", "populateTarget"), p.Fn("core", "BuildTarget.AddDatum"); pt == nil || ad == nil {
+		r.unresolved("E5.data-registered-before-deps", "asp.populateTarget / core.BuildTarget.AddDatum")
+	} else {
+		// does AddDatum set the flag unconditionally?
+		uncond := false
+		eachInstr(ad, false, func(_ *ssa.Function, i ssa.Instruction) {
+			st, ok := i.(*ssa.Store)
+			if !ok || fieldKey(st.Addr) != "core.depInfo.data" {
+				return
+			}
+			if b, isC := constBool(st.Val); isC && b {
+				guarded := false
+				for _, f := range factsAt(st) {
+					if c, ok := f.V.(*ssa.Call); ok && strings.HasSuffix(calleeName(&c.Call), "dependencyInfo") {
+						guarded = true
+					}
+					if bo, ok := f.V.(*ssa.BinOp); ok && tagsOf(bo.X, SliceOpts{})["call:(*core.BuildTarget).dependencyInfo"] {
+						guarded = true
+					}
+				}
+				if !guarded {
+					uncond = true
+				}
+			}
+		})
+		if !uncond {
+			r.okTrivial("E5.data-registered-before-deps", "AddDatum does not demote an existing dependency to data-only", p.pos(ad.Pos()), fnName(ad), "the data flag is set only for a dependency that was not there before")
+		} else {
+			var dataCalls, depCalls []ssa.Instruction
+			addDeps := p.Fn("parse/asp", "addDependencies")
+			eachInstr(pt, false, func(_ *ssa.Function, i ssa.Instruction) {
+				cc := callCommon(i)
+				if cc == nil {
+					return
+				}
+				if addDeps != nil && cc.StaticCallee() == addDeps {
+					depCalls = append(depCalls, i)
+				}
+				for _, a := range cc.Args {
+					if mc, ok := a.(*ssa.MakeClosure); ok && strings.Contains(mc.Fn.Name(), "AddDatum") {
+						dataCalls = append(dataCalls, i)
+					}
+				}
+			})
+			late := false
+			for _, d := range dataCalls {
+				for _, c := range depCalls {
+					if existsPath(pt, c, d, nil) {
+						late = true
+					}
+				}
+			}
+			if len(dataCalls) == 0 || len(depCalls) == 0 {
+				r.unresolved("E5.data-registered-before-deps", "the data and deps registrations in populateTarget")
+			} else {
+				r.check(!late, "E5.data-registered-before-deps", "data is registered before deps / exported_deps", p.pos(dataCalls[0].Pos()), fnName(pt), "no addDependencies call precedes the registration of data", "populateTarget registers `data` after the dependencies: AddDatum then marks a label that is also in deps as data-only, BuildDependencies() leaves it out, its outputs are not linked into the build directory, and $(location :x) expands to a path that does not exist when the command runs")
+			}
+		}
+	}
 	rule = "E5.bad-reference-rejected"
 	{
 		// non-dependency: expansion only on the len(deps)==0 false edge, panic on the true edge
